@@ -89,6 +89,17 @@ type FCase struct {
 	ReadErrAt      int          `json:"read_err_at"`    // index of the Read call that fails, -1 none
 	SrcAckErrAt    int          `json:"src_ack_err_at"` // index of the Source.Ack call that fails, -1 none
 	SrcTeardownErr bool         `json:"src_teardown_err"`
+	// Avoid lists the shapes the fakes replaced by harmless ones because a known finding is
+	// keyed on them (set by the test, not generated; part of the replay value)
+	Avoid []string `json:"avoid,omitempty"`
+}
+
+func (c FCase) avoidMap() map[string]bool {
+	m := map[string]bool{}
+	for _, s := range c.Avoid {
+		m[s] = true
+	}
+	return m
 }
 
 func (c FCase) size() int {
@@ -140,7 +151,9 @@ const (
 	shProcMulti1     = "proc-multi1"
 	shProcChangePos  = "proc-changepos"
 	shProcEmptyPos   = "proc-emptypos"
-	shCondShort      = "proc-condition-short-output" // only in TestC09ConditionalInWorker
+	shCondShort      = "proc-condition-short-output"      // only in TestC09ConditionalInWorker
+	shSplitEmptyPos  = "proc-split-of-empty-position"     // a split result for a record the source gave an empty position
+	shSplitDupPos    = "proc-split-of-duplicate-position" // a split result for a record whose source position another record of the batch carries too
 
 	shSrcEmptyPos   = "src-empty-position"
 	shSrcDupPos     = "src-duplicate-position"
@@ -167,7 +180,7 @@ var connShapes = []string{shAckPartial, shAckNack, shAckWrongPos, shAckSurplus, 
 
 func allShapes() []string {
 	out := []string{shNone, shProcZero, shProcShort, shProcLong, shProcNil, shProcNilForever, shProcErrorNil, shProcSplit,
-		shProcFilter, shProcError, shProcMulti0, shProcMulti1, shProcChangePos, shProcEmptyPos, shCondShort,
+		shProcFilter, shProcError, shProcMulti0, shProcMulti1, shProcChangePos, shProcEmptyPos, shCondShort, shSplitEmptyPos, shSplitDupPos,
 		shSrcEmptyPos, shSrcDupPos, shSrcEmptyBatch, shErrProcOpen, shErrProcClose}
 	for _, role := range []string{"src", "dst", "dlq"} {
 		for _, s := range connShapes {
@@ -230,7 +243,9 @@ type world struct {
 	firedSet   map[string]bool
 	excluded   map[string]bool
 	violations []violation
-	nilCalls   map[string]int // proc + "|" + root -> Process calls that contained the nil-forever record
+	emptyRoot  map[string]bool // read records whose source position is empty
+	dupRoot    map[string]bool // read records that share their source position with a neighbour
+	nilCalls   map[string]int  // proc + "|" + root -> Process calls that contained the nil-forever record
 	maxBatch   int
 	log        []string
 
@@ -253,7 +268,7 @@ const maxFakeCalls = 50_000
 
 func newWorld(c FCase, avoid map[string]bool) *world {
 	return &world{c: c, avoid: avoid, outcomes: map[string]map[string]outcome{}, said: map[string]map[string]int{},
-		dlqOK: map[string]bool{}, firedSet: map[string]bool{}, excluded: map[string]bool{}, nilCalls: map[string]int{},
+		dlqOK: map[string]bool{}, emptyRoot: map[string]bool{}, dupRoot: map[string]bool{}, firedSet: map[string]bool{}, excluded: map[string]bool{}, nilCalls: map[string]int{},
 		idle: make(chan struct{}, 1)}
 }
 
@@ -316,6 +331,13 @@ func triggerOf(fired []string) string {
 		return fired[len(fired)-1]
 	}
 	return shNone
+}
+
+func (w *world) rootKind(r opencdc.Record) (empty, dup bool) {
+	w.mu.Lock()
+	defer w.mu.Unlock()
+	root := rootOf(recID(r))
+	return w.emptyRoot[root], w.dupRoot[root]
 }
 
 func (w *world) violateLocked(key, detail string) {
@@ -459,8 +481,11 @@ func (s *fakeSource) Read(ctx context.Context) ([]opencdc.Record, error) {
 			}
 			if len(pos) == 0 {
 				w.fireLocked(shSrcEmptyPos)
+				w.emptyRoot["r"+strconv.Itoa(k)] = true
 			} else if rs.Pos == 2 && i > 0 && !w.avoid[shSrcDupPos] {
 				w.fireLocked(shSrcDupPos)
+				w.dupRoot["r"+strconv.Itoa(k)] = true
+				w.dupRoot["r"+strconv.Itoa(k-1)] = true
 			}
 			recs[i] = mkRecord(k, pos, rs.M)
 			w.reads = append(w.reads, readRec{id: recID(recs[i]), pos: pos})
@@ -500,6 +525,8 @@ func (s *fakeSource) Ack(_ context.Context, positions []opencdc.Position) error 
 		w.log = append(w.log, fmt.Sprintf("src.Ack(%q)", positions))
 	}
 	trig := w.triggerLocked()
+	failing := call == w.c.SrcAckErrAt && !w.avoid["src-"+shErrAck]
+	ptrBefore := w.ackPtr
 	for _, p := range positions {
 		if len(p) == 0 {
 			w.violateLocked("C09/acked-empty-position/"+trig, "Source.Ack received an empty position")
@@ -527,7 +554,9 @@ func (s *fakeSource) Ack(_ context.Context, positions []opencdc.Position) error 
 				fmt.Sprintf("Source.Ack(%q) for record %s: %s", p, rd.id, why))
 		}
 	}
-	if call == w.c.SrcAckErrAt && !w.avoid["src-"+shErrAck] {
+	if failing {
+		// the acknowledgment did not take: the engine may present the same positions again
+		w.ackPtr = ptrBefore
 		w.fireLocked("src-" + shErrAck)
 		return errInjected
 	}
@@ -626,6 +655,12 @@ func (p *scriptPlugin) Process(_ context.Context, recs []opencdc.Record) []sdk.P
 		}
 		if s, ok := kindShape[kind]; ok && w.avoids(s) {
 			kind = KSingle
+		}
+		if kind == KMulti3 && j < k {
+			empty, dup := w.rootKind(recs[j])
+			if (empty && w.avoids(shSplitEmptyPos)) || (dup && w.avoids(shSplitDupPos)) {
+				kind = KSingle
+			}
 		}
 		if j < k && p.nilForever(recs[j]) && !w.avoids(shProcNilForever) {
 			kind = KNil // fired (and counted) by recProc when the nil really reaches the engine
@@ -736,6 +771,12 @@ func (r *recProc) Process(ctx context.Context, recs []opencdc.Record) []sdk.Proc
 				}
 				st[ids[j]] = outcome{kind: oSplit, children: ch}
 				w.fireLocked(shProcSplit)
+				if w.emptyRoot[rootOf(ids[j])] {
+					w.fireLocked(shSplitEmptyPos)
+				}
+				if w.dupRoot[rootOf(ids[j])] {
+					w.fireLocked(shSplitDupPos)
+				}
 			}
 		}
 	}
